@@ -123,7 +123,7 @@ def boundary_values(tier, rng):
             timedelta(days=999999999, seconds=86399), timedelta(days=-999999999), timedelta(hours=100, seconds=-1),
             # outside the domain of the property (compared with the model only)
             "\x00", "a\x0bb", "\ud800", "￾",
-            # sub-second durations and second-granular offsets: see notes (F71, offsets)
+            # sub-second durations (F71) and second-granular offsets (no lexical claim)
             timedelta(seconds=1, microseconds=500000), timedelta(microseconds=1), timedelta(microseconds=-500000),
             datetime(2024, 1, 1, 12, 0, tzinfo=tzs[7])]
     n = 40 if tier == "quick" else 1500
@@ -391,7 +391,7 @@ def run(tier, seed, replay=None):
     return common.finish(PROP, tier, seed, proofs, coverage, violations, known_seen, t0,
                          assumptions=["a stored date reads back as the datetime at 00:00 of that day (DESIGN.md C06)",
                                       "numbers read back as a numerically equal int or Decimal (user-defined metadata documents Decimal)",
-                                      "domain: finite numbers, XML 1.0 strings, whole-second durations, None not for user-defined metadata"])
+                                      "domain: finite numbers, XML 1.0 strings, valid dates of years 1..9999, every timedelta, None not for user-defined metadata"])
 
 
 if __name__ == "__main__":
